@@ -198,6 +198,11 @@ func caseTimeout() time.Duration {
 
 func (r *Run) Thorough() bool { return r.Tier == "thorough" }
 
+// Huge: the families that are too expensive for every quick run (millions of entries, inputs of megabytes) are run
+// in the thorough tier, in a witness search, and — the point — in any run whose budget was enlarged because the
+// digest of a modelled function changed: code that changed is explored at sizes the unchanged code is not.
+func (r *Run) Huge() bool { return r.Thorough() || r.Search || r.Budget > 1 }
+
 // Scale multiplies a quick-tier count by the budget factor (thorough, or enlarged because modelled
 // code changed).
 func (r *Run) Scale(n int) int {
